@@ -585,8 +585,8 @@ func c05(c *core.Ctx, r *core.Report) {
 						continue
 					}
 					d := stripCaret(an.D().Of(st.Chan))
-					if call, ok := an.Strip(st.Chan).(*ssa.Call); ok && an.IsFunc(an.Callee(call), "time", "After") {
-						arg := stripCaret(an.D().Of(call.Call.Args[0]))
+					if dur := timerChanDuration(st.Chan); dur != nil {
+						arg := stripCaret(an.D().Of(dur))
 						if strings.HasSuffix(arg, "waitForCompletionTimeout") || strings.HasSuffix(strings.ToLower(arg), "timeout") {
 							bounded = true
 						} else {
@@ -669,8 +669,17 @@ func c05(c *core.Ctx, r *core.Report) {
 		}
 		parent := an.D().Of(wt.Call.Args[0])
 		r.Check(parent == "$ctx" || strings.HasPrefix(parent, "$"), key+"#parent", an.Pos(c, wt), "trigger context derived from the caller's context "+parent, "trigger context derived from "+parent+", not from the caller's context: cancellation does not stop triggering")
-		dl := an.DI().Of(wt.Call.Args[1])
-		bo, isSub := an.Strip(wt.Call.Args[1]).(*ssa.BinOp)
+		// the timeout: WithTimeout's duration, or the duration added to time.Now() for WithDeadline
+		var durArg ssa.Value = wt.Call.Args[1]
+		if an.IsFunc(an.Callee(wt), "context", "WithDeadline") {
+			if add, ok := an.Strip(durArg).(*ssa.Call); ok && an.Callee(add) != nil && an.Callee(add).Name() == "Add" && an.Callee(add).Signature.Recv() != nil && an.IsNamed(an.Callee(add).Signature.Recv().Type(), "time", "Time") {
+				if now, isNow := an.Strip(add.Call.Args[0]).(*ssa.Call); isNow && an.IsFunc(an.Callee(now), "time", "Now") {
+					durArg = add.Call.Args[1]
+				}
+			}
+		}
+		dl := an.DI().Of(durArg)
+		bo, isSub := an.Strip(durArg).(*ssa.BinOp)
 		okDl := isSub && bo.Op == token.SUB && isConst(bo.Y) && strings.Contains(dl, "options.MaxDuration") && strings.Contains(dl, "trigger.Duration")
 		if okDl {
 			k := bo.Y.(*ssa.Const)
@@ -961,4 +970,38 @@ func flagAccess(call ssa.CallInstruction) (*types.Var, string, ssa.Value) {
 		return fld, op, val
 	}
 	return nil, "", nil
+}
+
+// timerChanDuration: ch is a channel that delivers once after a duration — time.After(d) or time.NewTimer(d).C;
+// returns d.
+func timerChanDuration(ch ssa.Value) ssa.Value {
+	v := an.Strip(ch)
+	if call, ok := v.(*ssa.Call); ok && an.IsFunc(an.Callee(call), "time", "After") {
+		return call.Call.Args[0]
+	}
+	// (*Timer).C of a timer made here
+	var base ssa.Value
+	switch x := v.(type) {
+	case *ssa.FieldAddr:
+		base = x.X
+	case *ssa.UnOp:
+		if fa, ok := x.X.(*ssa.FieldAddr); ok {
+			base = fa.X
+		}
+	}
+	if base == nil {
+		if ld, ok := ch.(*ssa.UnOp); ok {
+			if fa, isFA := ld.X.(*ssa.FieldAddr); isFA {
+				base = fa.X
+			}
+		}
+	}
+	if base != nil {
+		if fld, owner := an.TerminalField(ch); fld != nil && fld.Name() == "C" && an.IsNamed(owner, "time", "Timer") {
+			if call, ok := stripAllocs(base).(*ssa.Call); ok && an.IsFunc(an.Callee(call), "time", "NewTimer") {
+				return call.Call.Args[0]
+			}
+		}
+	}
+	return nil
 }
